@@ -10,7 +10,7 @@
     the implementation by the hunt harness), (2) the recover wrappers of search/shards.go as outcome transformers,
     (3) the search-time view of one document.  Proofs: Proofs/FormatRobust.v. *)
 From Coq Require Import String.
-From ZV Require Import Lib.Base Lib.Varint Generated.FormatConsts Model.Format.
+From ZV Require Import Lib.Base Lib.Varint Generated.FormatConsts Model.Format Model.Btree.
 Open Scope N_scope.
 
 (* ------------------------------------------------------------------ (1) the decoders before the repair *)
@@ -153,38 +153,49 @@ Definition flip_bit (l : list N) (pos bit : N) : list N :=
 
 (* ------------------------------------------------------------------ (4) sharded search and a loaded-but-corrupt shard *)
 
-(** indexData.Search(Const true, Whole) restricted to what it reads of every document *)
-Fixpoint shard_docs (d : idata) (n : nat) (i : N) : outcome (list (list N * list N)) :=
-  match n with
-  | O => Ok []
-  | S k => do r <- doc_read d i; let '(name, content, _, _) := r in
-           do rest <- shard_docs d k (i + 1); Ok ((name, content) :: rest)
-  end.
-Definition shard_search (d : idata) : outcome (list (list N * list N)) := shard_docs d (length (i_masks d)) 0.
+(** what a substring search reads first (indexData.iterateNgrams): the posting list of an ngram of the pattern,
+    located through btreeIndex.Get and read with readSectionBlob — a read error is RETURNED by Search.
+    (Errors of the per-document content reads are swallowed by contentProvider: p.err is never inspected.) *)
+Definition shard_ngram_search (d : idata) (g : N) : outcome (list N) :=
+  do text <- blob_of (i_file d) (i_ngramSec d);
+  let bt := new_btree_index btreeBucketSize btreeV text (i_ngramSec d) (i_postingIndex d) in
+  let s := btree_get (i_file d) bt g in
+  file_read (i_file d) (fst s) (snd s).
 
 (** shardedSearcher.streamSearch + searchOneShard: a panic inside one shard is contained and counted
     (Stats.Crashes), but an ERROR returned by one shard aborts the whole search:
         if r.err != nil { stop(); err = r.err; continue }                                   *)
-Fixpoint sharded_search (shards : list idata) : outcome (list (list N * list N) * N) :=
+Fixpoint sharded_search (shards : list idata) (g : N) : outcome (list (list N) * N) :=
   match shards with
   | [] => Ok ([], 0)
   | d :: rest =>
-    do acc <- sharded_search rest;
-    match shard_search d with
-    | Ok r => Ok (r ++ fst acc, snd acc)
+    do acc <- sharded_search rest g;
+    match shard_ngram_search d g with
+    | Ok r => Ok (r :: fst acc, snd acc)
     | Err e => Err e
     | Panic w => if w =? P_DIVERGE then Panic w else Ok (fst acc, snd acc + 1)
     end
   end.
 
-(** a healthy one-document shard written by the model, and the same file with the top bit of the fileContents
-    data offset (in the TOC) flipped *)
+(** a healthy one-document shard written by the model, and the same file with the top bit of every entry of the
+    postings index table set (every content posting list then starts beyond the end of the file) *)
 Definition iso_doc : doc_in := mkDocIn (str "a.go") (str "package needle") 0 true [] [] [] 0.
 Definition iso_state : bstate := add_repos [([], [iso_doc])] 0 b_empty.
 Definition iso_opaque : opaque := mkOpaque (repeat 0 8) [0; 0] [1] None wit_meta wit_repo.
 Definition iso_healthy : list N := write_shard false iso_state iso_opaque.
-Definition iso_pos : N := nlen (fst (layout 0 (shard_sections false iso_state iso_opaque))) + 58.
-Definition witness_oob : list N := flip_bit iso_healthy iso_pos 7.
+Definition iso_table : N * N :=
+  match lookup_tag (str "postings") (snd (layout 0 (shard_sections false iso_state iso_opaque))) with
+  | Some (RCompound _ _ ioff isz) => (ioff, isz)
+  | _ => (0, 0)
+  end.
+Fixpoint set_top_bits (l : list N) (pos : N) (lo sz : N) : list N :=
+  match l with
+  | [] => []
+  | x :: r => (if (lo <=? pos) && (pos <? lo + sz) && ((pos - lo) mod 4 =? 0) && (x <? 128) then x + 128 else x)
+              :: set_top_bits r (pos + 1) lo sz
+  end.
+Definition witness_oob : list N := set_top_bits iso_healthy 0 (fst iso_table) (snd iso_table).
+Definition iso_ngram : N := ngram_of 110 101 101.    (* "nee", a trigram of the pattern "needle" *)
 Definition witnesses2 : list (list N) := witnesses ++ [witness_oob; iso_healthy].
 
 (* ------------------------------------------------------------------ outcome-class runner *)
